@@ -1,4 +1,5 @@
 import Urandom.Lemmas.IEEEOrder
+import Urandom.Lemmas.IEEERoundTrip
 import Urandom.Model.FloatDistr
 /-
 C15 - Exp / Normal / LogNormal: total parameter validation, always-valid samples.
@@ -233,5 +234,135 @@ non-negative `1/|λ|` is never negative -/
 theorem mulE_sign (a b : Val) (h : (a.mulE b).isNaN = false) : (a.mulE b).sign = (a.sign != b.sign) := by
   rcases a with _ | s | ⟨s, _ | m, e⟩ <;> rcases b with _ | t | ⟨t, _ | n, g⟩ <;>
     simp_all [Val.mulE, Val.isNaN, Val.sign]
+
+end Urandom.C15
+
+/-! ### bit-level sample validity (transfer through `decode ∘ encode = round`)
+
+`Lemmas/IEEERoundTrip` proves that the bit pattern an operation returns decodes to the rounded exact
+value.  With `round_isNaN` / `round_sign` the class and sign statements above become statements about
+the bit patterns the model (and, by the correspondence, the implementation) returns.  What remains
+assumed is exactly what depends on libm and on the ziggurat's numeric range: that the standard
+samples are finite (and the unit exponential positive), and that `exp` maps non-NaN to non-NaN,
+non-negative results. -/
+namespace Urandom.C15
+open Urandom Urandom.IEEE Urandom.FD
+
+theorem decode_encode_isNaN (f : Fmt) (hf : f.WF) (v : Val) (st : Bool) :
+    (decode f (encode f v st)).isNaN = v.isNaN := by
+  rw [decode_encode f hf, round_isNaN]
+
+theorem decode_encode_sign (f : Fmt) (hf : f.WF) (v : Val) (st : Bool) :
+    (decode f (encode f v st)).sign = v.sign := by
+  rw [decode_encode f hf, round_sign]
+
+/-- `x.abs()` on bit patterns is `abs` on values -/
+theorem decode_abs (f : Fmt) (a : ℕ) : decode f (IEEE.abs f a) = (decode f a).abs := by
+  have h1 : (a % 2 ^ (f.eb + f.mb)).testBit (f.eb + f.mb) = false := by
+    rw [Nat.testBit_mod_two_pow]; simp
+  have h2 : ((a % 2 ^ (f.eb + f.mb)) >>> f.mb) % 2 ^ f.eb = (a >>> f.mb) % 2 ^ f.eb := by
+    rw [Nat.shiftRight_eq_div_pow, Nat.shiftRight_eq_div_pow, Nat.add_comm f.eb f.mb, pow_add,
+      Nat.mod_mul_right_div_self, Nat.mod_mod]
+  have h3 : (a % 2 ^ (f.eb + f.mb)) % 2 ^ f.mb = a % 2 ^ f.mb :=
+    Nat.mod_mod_of_dvd _ (pow_dvd_pow 2 (Nat.le_add_left _ _))
+  unfold IEEE.abs
+  rw [decode_eq, decode_eq, h1, h2, h3]
+  split
+  · split <;> rfl
+  · split <;> rfl
+
+theorem le_nan_right (a : Val) : a.le .nan = false := by
+  cases a <;> simp [Val.le, Val.lt, Val.eq]
+
+/-- the decoded literal one: a positive finite value, in both widths -/
+theorem decode_one : (decode b64 (c b64 1) = .fin false (2 ^ 52) (-52)) ∧ (decode b32 (c b32 1) = .fin false (2 ^ 23) (-23)) := by
+  decide +kernel
+
+/-- **the stored `1/|λ|` of an accepted `Exp` is neither NaN nor negative - as a bit pattern** -/
+theorem exp_lambdaInv_valid (f : Fmt) (hf : f.WF) (m1 : ℕ) (e1 : ℤ) (h1 : decode f (c f 1) = .fin false m1 e1) (hm1 : m1 ≠ 0)
+    (lambda li : ℕ) (h : Exp.tryNew f lambda = .ok li) :
+    (decode f li).isNaN = false ∧ (decode f li).sign = false := by
+  unfold Exp.tryNew at h
+  split at h
+  · cases h
+  · rename_i hge
+    simp only [Except.ok.injEq] at h
+    subst h
+    simp only [Decidable.not_not] at hge
+    -- the accepted rate is not NaN
+    have hn : (decode f lambda).isNaN = false := by
+      unfold ge le at hge
+      cases hl : decode f lambda with
+      | nan => rw [hl, le_nan_right] at hge; cases hge
+      | inf s => rfl
+      | fin s m e => rfl
+    have habs_n : ((decode f lambda).abs).isNaN = false := by
+      cases hl : decode f lambda <;> simp_all [Val.abs, Val.isNaN]
+    have habs_s : ((decode f lambda).abs).sign = false := by
+      cases hl : decode f lambda <;> simp [Val.abs, Val.sign]
+    unfold div
+    simp only []
+    rw [decode_encode_isNaN f hf, decode_encode_sign f hf, h1, decode_abs]
+    -- the quotient 1 / |λ|: never NaN (the dividend is not zero), never negative
+    generalize (decode f lambda).abs = v at habs_n habs_s
+    cases v with
+    | nan => simp [Val.isNaN] at habs_n
+    | inf s => simp only [Val.sign] at habs_s; subst habs_s; simp [divV, Val.isNaN, Val.sign]
+    | fin s n g =>
+      simp only [Val.sign] at habs_s; subst habs_s
+      simp only [divV]
+      split
+      · simp [hm1, Val.isNaN, Val.sign]
+      · simp [hm1, Val.isNaN, Val.sign]
+
+/-- **an `Exp` sample is never NaN and never negative - as a bit pattern** - whenever the unit
+exponential variate it scales is finite and positive (`0 < x < 54`: the ziggurat's range, which
+depends on libm's `ln`) -/
+theorem exp_sample_valid_bits (f : Fmt) (hf : f.WF) (x li : ℕ)
+    (hx : ∃ m e, decode f x = .fin false m e ∧ m ≠ 0)
+    (hli : (decode f li).isNaN = false ∧ (decode f li).sign = false) :
+    isNaN f (mul f x li) = false ∧ (decode f (mul f x li)).sign = false := by
+  obtain ⟨m, e, hxd, hm⟩ := hx
+  obtain ⟨hn, hs⟩ := hli
+  unfold isNaN mul
+  rw [decode_encode_isNaN f hf, decode_encode_sign f hf, hxd]
+  cases hl : decode f li with
+  | nan => rw [hl] at hn; simp [Val.isNaN] at hn
+  | inf s => rw [hl] at hs; simp only [Val.sign] at hs; subst hs; simp [Val.mulE, hm, Val.isNaN, Val.sign]
+  | fin s n g => rw [hl] at hs; simp only [Val.sign] at hs; subst hs; simp [Val.mulE, Val.isNaN, Val.sign]
+
+/-- **a `Normal` sample is never NaN - as a bit pattern** - for an accepted distribution (finite
+standard deviation) with a non-NaN mean, whenever the standard normal variate is finite -/
+theorem normal_sample_not_nan_bits (f : Fmt) (hf : f.WF) (d : Normal) (z : ℕ)
+    (hsd : isFinite f d.stdDev = true) (hz : isFinite f z = true) (hm : isNaN f d.mean = false) :
+    isNaN f (d.fromZscore f z) = false := by
+  unfold Normal.fromZscore fma isNaN
+  rw [decode_encode_isNaN f hf]
+  unfold isFinite at hsd hz
+  unfold isNaN at hm
+  cases hs : decode f d.stdDev with
+  | nan => rw [hs] at hsd; simp [Val.isFinite] at hsd
+  | inf s => rw [hs] at hsd; simp [Val.isFinite] at hsd
+  | fin s a e =>
+    cases hzz : decode f z with
+    | nan => rw [hzz] at hz; simp [Val.isFinite] at hz
+    | inf s => rw [hzz] at hz; simp [Val.isFinite] at hz
+    | fin t b g =>
+      cases hmm : decode f d.mean with
+      | nan => rw [hmm] at hm; simp [Val.isNaN] at hm
+      | inf u => simp [Val.mulE, Val.addE, Val.isNaN]
+      | fin u c h => simp only [Val.mulE, Val.addE]; exact addFin_not_nan _ _ _ _ _ _
+
+/-- **a `LogNormal` sample is never NaN and never negative - as a bit pattern** - under the same
+conditions, given that libm's `exp` maps a non-NaN argument to a non-NaN, non-negative result
+(the assumption about libm is explicit) -/
+theorem lognormal_sample_valid_bits (m : Libm) (f : Fmt) (hf : f.WF) (d : Normal) (z : ℕ)
+    (hexp : ∀ x, isNaN f x = false → isNaN f (m.exp f x) = false ∧ (decode f (m.exp f x)).sign = false)
+    (hsd : isFinite f d.stdDev = true) (hz : isFinite f z = true) (hm : isNaN f d.mean = false) :
+    isNaN f (LogNormal.fromZscore m f d z) = false ∧ (decode f (LogNormal.fromZscore m f d z)).sign = false :=
+  hexp _ (normal_sample_not_nan_bits f hf d z hsd hz hm)
+
+/-- non-vacuity: `Exp(2.5)` is accepted, its stored inverse rate is `0.4` -/
+example : Exp.tryNew b64 0x4004000000000000 = .ok 0x3FD999999999999A := by decide +kernel
 
 end Urandom.C15
